@@ -48,11 +48,14 @@ class Ctx:
 
 
 def load_findings():
-    p = os.path.join(VERIF, "KNOWN_FINDINGS.json")
-    if not os.path.exists(p):
-        return []
-    with open(p) as fh:
-        return json.load(fh)["findings"]
+    out = []
+    # KNOWN_FINDINGS.json: the listed properties; KNOWN_FINDINGS_EXTRA.json: extra checks X.. (spec growth beyond the list)
+    for name in ("KNOWN_FINDINGS.json", "KNOWN_FINDINGS_EXTRA.json"):
+        p = os.path.join(VERIF, name)
+        if os.path.exists(p):
+            with open(p) as fh:
+                out += json.load(fh)["findings"]
+    return out
 
 
 def _sc_hash(sc):
@@ -60,13 +63,14 @@ def _sc_hash(sc):
 
 
 def write_evidence(prop, tier, seed, level, coverage, assumptions, wall, violations):
-    os.makedirs(os.path.join(OUT, "evidence"), exist_ok=True)
+    evdir = "evidence" if prop.startswith("C") else "evidence_extra"    # extra checks do not claim a listed property
+    os.makedirs(os.path.join(OUT, evdir), exist_ok=True)
     ev = {
         "property_id": prop, "tier": tier, "seed": seed, "level": level,
         "coverage": coverage, "assumptions": assumptions, "wall_s": round(wall, 2),
         "violations": violations,
     }
-    path = os.path.join(OUT, "evidence", f"{prop}.json")
+    path = os.path.join(OUT, evdir, f"{prop}.json")
     tmp = path + ".tmp"
     with open(tmp, "w") as fh:
         json.dump(ev, fh, indent=1, sort_keys=True)
